@@ -379,6 +379,7 @@ class Ovld:
         self.shortname = name or f"__OVLD{self.id}"
         self.__name__ = name
         self._defns = {}
+        self._code_slots = {}
         self._locked = False
         self.mixins = []
         self.argument_analysis = ArgumentAnalyzer()
@@ -540,8 +541,10 @@ class Ovld:
         if not hasattr(self, "dispatch"):
             self.dispatch = bootstrap_dispatch(self, name=self.shortname)
 
+        occurrences = {}
         for key, fn in list(self.defns.items()):
-            self.register_signature(key, fn)
+            n = occurrences[fn] = occurrences.get(fn, 0) + 1
+            self.register_signature(key, fn, occurrence=n)
             _verif.point("compile.registered", ov=self.id)
 
         # The generated entry point is swapped in only once the table is
@@ -564,10 +567,12 @@ class Ovld:
         self.ensure_compiled()
         return self.map[tuple(map(subtler_type, args))]
 
-    def register_signature(self, sig, orig_fn):
+    def register_signature(self, sig, orig_fn, occurrence=1):
         """Register a function for the given signature."""
+        slots = self._code_slots
+        slot = slots.setdefault((orig_fn, occurrence), f"{self.id}_{len(slots)}")
         fn = adapt_function(
-            orig_fn, self, f"{self.__name__}[{sigstring(sig.types)}]"
+            orig_fn, self, f"{self.__name__}[{sigstring(sig.types)}]", slot
         )
         # We just need to keep the Conformer pointer alive for jurigged
         # to find it, if jurigged is used with ovld
